@@ -8,6 +8,15 @@ for l in open('/verif/properties.jsonl'):
     if p['id'] == pid:
         break
 wt = f"/tmp/wt-{pid}" + (f"-{n}" if n > 1 else "")
+avoid = ""
+if n > 1:
+    import os
+    prev = []
+    for d in sorted(os.listdir('/verif/seeded')):
+        if d.split('-')[0] == pid and os.path.exists(f'/verif/seeded/{d}/meta.json'):
+            prev.append(json.load(open(f'/verif/seeded/{d}/meta.json'))['summary'][:400])
+    if prev:
+        avoid = "\n\nALREADY TAKEN (do not repeat; pick a different function, a different kind of mistake and, where the property spans several schemes or code paths, a different scheme/path):\n" + "\n".join("  - " + x for x in prev)
 print(f"""You are helping evaluate a verification framework by planting a realistic bug ("seeded change") in a Rust library.
 
 Work ONLY inside the git worktree {wt} (a checkout of arkworks-rs/poly-commit, a Rust library of polynomial commitment schemes: KZG10/Marlin, Sonic, IPA, PST13, multilinear PST, Hyrax, Ligero/Brakedown, streaming KZG; crate sources under {wt}/poly-commit/src). Do not read or touch /verif or /repo. There is no network: always pass --offline to cargo (e.g. `cd {wt} && cargo test -p ark-poly-commit --offline <filter>`). The machine is shared, so be frugal: while developing run only the relevant test modules (e.g. `cargo test -p ark-poly-commit --offline marlin_pc`); run the whole suite (`cd {wt} && cargo test --workspace --offline --no-fail-fast`, about 5-10 minutes) exactly once at the end.
@@ -24,7 +33,7 @@ YOUR TASK: make ONE small change to the library sources (a plausible maintenance
   1. the crate still compiles and the ENTIRE existing test suite still passes (all 113 tests of `cargo test --workspace --offline`), and
   2. the property above is violated for SOME input, and
   3. the violation needs something specific to manifest - an unusual input shape, a particular size/degree/bound combination, a multi-step sequence of calls, a crafted (non-honest) proof, a particular configuration - NOT something that ordinary use would expose at once (if a plain honest commit/open/check round trip on a random polynomial fails, the change is too blunt; the existing tests would likely catch it anyway).
-Prefer a change inside the library logic proper (not in test code, not in Cargo files). Do not add cfg flags. Keep it small (a few lines).
+Prefer a change inside the library logic proper (not in test code, not in Cargo files). Do not add cfg flags. Keep it small (a few lines).{avoid}
 
 DELIVERABLES - create the directory {wt}/_seeded/ containing:
   * patch.diff  - output of `git -C {wt} diff -- poly-commit` (the library change only; do not include _seeded or your demo in it),
